@@ -80,13 +80,15 @@ def sanitize_variable_name(
         template: A template to use for sanitized names, which is mainly useful
             if you need to undo the sanitization by string replacement.
     """
-    if name.isidentifier() or keyword.iskeyword(name):
+    if name.isidentifier() and not keyword.iskeyword(name):
         return name
 
     # Compute recognisable basename
     base_name = "".join([char if re.match(r"\w", char) else "_" for char in name])
     if not base_name or base_name[0].isdigit():
         base_name = "_" + base_name
+    if keyword.iskeyword(base_name):
+        base_name += "_"
 
     # Verify new name is not in env already, and if not add a random suffix.
     new_name = template.format(base_name)
